@@ -322,7 +322,7 @@ class ConstantInt(ConstantOpcode, ABC):
 
     @classmethod
     def validate(cls, obj):
-        if not isinstance(obj, int):
+        if not isinstance(obj, int) or isinstance(obj, bool):
             raise ValueError(f"{cls.__name__} can only be instantiated from integers, not {obj!r}")
         elif cls.num_bytes not in cls.struct_types:
             raise TypeError(
@@ -1607,6 +1607,9 @@ class BinFloat(ConstantOpcode):
     name = "BINFLOAT"
     priority = BinInt1.priority * 2
 
+    def encode_body(self) -> bytes:
+        return struct.pack(">d", self.arg)
+
     @classmethod
     def validate(cls, obj):
         if not isinstance(obj, float):
@@ -1697,7 +1700,10 @@ class Int(ConstantOpcode):
 
     @classmethod
     def validate(cls, obj):
-        _ = int(obj)
+        # only genuine integers: int(obj) would also accept (and silently convert) floats,
+        # numeric-looking str/bytes and bools, and new() tries this class before the others
+        if not isinstance(obj, int) or isinstance(obj, bool):
+            raise ValueError(f"{cls.__name__} can only be instantiated from integers, not {obj!r}")
         return obj
 
 
